@@ -173,18 +173,33 @@ func canonExpr(fi *FuncInfo, e ast.Expr, fset *token.FileSet) string {
 	t := tb.term(e)
 	root := fi.Root()
 	isParam := map[types.Object]bool{}
+	// a renamed parameter keeps the name the reviewed tables know it by (same position, unchanged signature)
+	tableName := map[types.Object]string{}
 	if root.Sig != nil {
+		var objs []types.Object
 		if r := root.Sig.Recv(); r != nil {
 			isParam[r] = true
+			objs = append(objs, r)
 		}
 		for i := 0; i < root.Sig.Params().Len(); i++ {
 			isParam[root.Sig.Params().At(i)] = true
+			objs = append(objs, root.Sig.Params().At(i))
+		}
+		if bp := baselineParams[root.Name]; len(bp) == len(objs) && root.Obj != nil && baselineSigs[root.Name] == sigKey(root.Obj) {
+			for i, o := range objs {
+				if bp[i] != "" && bp[i] != "_" && bp[i] != o.Name() {
+					tableName[o] = bp[i]
+				}
+			}
 		}
 	}
 	var ren func(t *Term) *Term
 	ren = func(t *Term) *Term {
 		if t.K == "var" {
 			if isParam[t.Obj] {
+				if n, ok := tableName[t.Obj]; ok {
+					return mk("const", n)
+				}
 				return mk("const", t.S)
 			}
 			if v, ok := t.Obj.(*types.Var); ok && (v.Kind() == types.ParamVar || v.Kind() == types.RecvVar) {
